@@ -184,6 +184,9 @@ func (fc *FnCtx) allocRef(name string, t types.Type) Val {
 	fc.assertGlobal(fmt.Sprintf("(<= allocBase %s)", r))
 	for _, o := range fc.allocs {
 		fc.assertGlobal(fmt.Sprintf("(not (= %s %s))", o, r))
+		for _, sub := range fc.localSubs[o] {
+			fc.assertGlobal(fmt.Sprintf("(not (= %s %s))", sub, r))
+		}
 	}
 	fc.allocs = append(fc.allocs, r)
 	fc.newIsNew(r)
